@@ -80,7 +80,7 @@ def cfg_text(spec=None, init=None, next_=None, constants=None, invariants=(), pr
 _RE_STATS = re.compile(r'(\d+) states generated, (\d+) distinct states found')
 _RE_DEPTH = re.compile(r'The depth of the complete state graph search is (\d+)')
 _RE_INV = re.compile(r'Error: Invariant (\S+) is violated')
-_RE_PROP = re.compile(r'Error: (?:Action|Temporal) propert(?:y|ies) (?:(\S+) )?(?:is|were) violated')
+_RE_PROP = re.compile(r'Error: (?:Action|Temporal) propert(?:y|ies) (?:(\S+) )?(?:is|was|were) violated')
 _RE_COV = re.compile(r'^<(\w+) line (\d+), col (\d+) .*?>: (\d+):(\d+)', re.M)
 
 
